@@ -32,8 +32,8 @@ def _is_cons_positive_test(test, cons_names, arg_pred) -> bool:
         if not pol:
             continue
         e = c
-        if isinstance(e, ast.Call) and canon(e.func) in ("np.any", "any") and e.args:
-            e = e.args[0]
+        while isinstance(e, ast.Call) and canon(e.func) in ("np.any", "any", "bool") and len(e.args) == 1:
+            e = e.args[0]  # the truth value of the comparison, spelled out
         if isinstance(e, ast.Compare) and len(e.ops) == 1:
             l, r, op = e.left, e.comparators[0], type(e.ops[0])
             if op is ast.Lt:
